@@ -437,6 +437,48 @@ func c07GroupLookup(rep *report.R, maxRanges int) {
 		}
 	}
 	rec(0)
+	// neighbouring ranges with the same label, ending and starting on /64 boundaries (the low half wraps from all-ones to zero):
+	// what lies between two ranges belongs to neither, however close they are and whatever their labels
+	{
+		his := []string{"2001:db8:0:1", "2001:db8:0:2", "2001:db8:0:5", "2001:db9:0:0", "fd00:0:0:0"}
+		for i, ha := range his {
+			for _, hb := range his[i+1:] {
+				for _, aEnd := range []string{":ffff:ffff:ffff:ffff", "::ffff"} {
+					for _, bStart := range []string{"::", "::5"} {
+						for _, labels := range [][2]string{{"g1", "g1"}, {"g1", "g2"}} {
+							n++
+							if !report.Owns(n) {
+								continue
+							}
+							aLo, aHi := netip.MustParseAddr(ha+"::"), netip.MustParseAddr(ha+aEnd)
+							bLo, bHi := netip.MustParseAddr(hb+bStart), netip.MustParseAddr(hb+"::ffff")
+							file := fmt.Sprintf("%s,%s,%s\n%s,%s,%s\n", aLo, aHi, labels[0], bLo, bHi, labels[1])
+							desc := strings.ReplaceAll(file, "\n", "; ")
+							rep.Eval(desc)
+							m, err := loadIpMarkerFromReader(strings.NewReader(file))
+							if err != nil {
+								rep.Violate("C07:groups:label-sequence-rejected", fmt.Sprintf("%v for %s", err, desc), nil)
+								continue
+							}
+							probes := []netip.Addr{aLo, aHi, bLo, bHi, aHi.Next(), bLo.Prev(), netip.MustParseAddr(ha + ":8000::1"), netip.MustParseAddr(hb + "::3"),
+								netip.MustParseAddr("2001:db8:0:3::1"), netip.MustParseAddr("2001:db8:ffff::1"), netip.MustParseAddr("e000::1"), netip.MustParseAddr("10.0.0.1")}
+							for _, p := range probes {
+								want := ""
+								if !c07Less(p, aLo) && !c07Less(aHi, p) {
+									want = labels[0]
+								} else if !c07Less(p, bLo) && !c07Less(bHi, p) {
+									want = labels[1]
+								}
+								if got := m.Mark(p); got != want {
+									rep.Violate("C07:groups:wrong-label", fmt.Sprintf("address %s: label %q, linear scan says %q; file: %s", p, got, want, desc), nil)
+								}
+							}
+						}
+					}
+				}
+			}
+		}
+	}
 	// label sequences: up to 6 disjoint ranges (v4 and v6, not in address order) labelled by every sequence over 3 labels (repeats,
 	// returns to an earlier label, runs): each range keeps the label written on its own line
 	lranges := [][2]string{{"10.0.3.0", "10.0.3.255"}, {"10.0.1.0", "10.0.1.255"}, {"2001:db8:5::", "2001:db8:5::ffff"}, {"10.0.2.0", "10.0.2.255"}, {"192.0.2.1", "192.0.2.1"}, {"2001:db8:1::", "2001:db8:1::ffff"}}
